@@ -131,6 +131,61 @@ theorem update_valid {c b : Nat} (hc : c < 65536) (hv : validCode c = true) (hb 
       (rw [hk]; simp only [setAt, Tup]; omega)
   exact ⟨encode_lt ht', validCode_encode ht'⟩
 
+theorem validCode_fields {i m r t : Nat} (h : Tup 6 i m r t) (hne : ¬ (i = 0 ∧ m = 0 ∧ r = 0 ∧ t = 0)) :
+    validCode (i * 512 + m * 128 + r * 8 + t) = true := by
+  have := validCode_encode h
+  unfold encode at this
+  rwa [if_neg hne] at this
+
+theorem validCode_empty : validCode 32768 = true := by decide
+
+theorem remove_masks_eq : removeInitialMask = 511 ∧ removeMedialMask = 65151 ∧ removeRimeMask = 65415 ∧
+    removeToneMask = 65528 ∧ emptyPattern = 32768 := by decide
+
+/-- the removers (hence `pop`) keep the invariant: on a valid code they yield a valid code -/
+theorem removeKind_valid {c : Nat} (k : Nat) (hc : c < 65536) (hv : validCode c = true) :
+    removeKind k c < 65536 ∧ validCode (removeKind k c) = true := by
+  obtain ⟨e1, e2, e3, e4, e5⟩ := remove_masks_eq
+  obtain ⟨i, m, r, t, ht, rfl⟩ := (validCode_iff hc).mp hv
+  have f := encode_fields ht
+  obtain ⟨t0, t1, t2, t3⟩ := ht
+  by_cases hz : i = 0 ∧ m = 0 ∧ r = 0 ∧ t = 0
+  · obtain ⟨rfl, rfl, rfl, rfl⟩ := hz
+    rcases k with _ | _ | _ | k
+    · decide
+    · decide
+    · decide
+    · have : removeKind (k + 1 + 1 + 1) (encode 0 0 0 0) = removeTone (encode 0 0 0 0) := rfl
+      rw [this]; decide
+  · have hcv : encode i m r t = i * 512 + m * 128 + r * 8 + t := by unfold encode; rw [if_neg hz]
+    have key : ∀ v i' m' r' t', Tup 6 i' m' r' t' → v = i' * 512 + m' * 128 + r' * 8 + t' →
+        (if (v == 0) = true then 32768 else v) < 65536 ∧ validCode (if (v == 0) = true then 32768 else v) = true := by
+      intro v i' m' r' t' ht' hv'
+      by_cases h0 : v = 0
+      · simp only [h0, beq_self_eq_true, if_true]; exact ⟨by omega, validCode_empty⟩
+      · have hb : (v == 0) = false := by simp [h0]
+        simp only [hb, Bool.false_eq_true, if_false]
+        have hne : ¬ (i' = 0 ∧ m' = 0 ∧ r' = 0 ∧ t' = 0) := by rintro ⟨rfl, rfl, rfl, rfl⟩; omega
+        obtain ⟨a, b, c', d⟩ := ht'
+        exact ⟨by omega, by rw [hv']; exact validCode_fields ⟨a, b, c', d⟩ hne⟩
+    rcases k with _ | _ | _ | k
+    · simp only [removeKind, removeInitial, removeWith, e1, e5, and_511 hc]
+      exact key _ 0 m r t ⟨by omega, t1, t2, t3⟩ (by omega)
+    · simp only [removeKind, removeMedial, removeWith, e2, e5, and_65151 hc]
+      exact key _ i 0 r t ⟨t0, by omega, t2, t3⟩ (by omega)
+    · simp only [removeKind, removeRime, removeWith, e3, e5, and_65415 hc]
+      exact key _ i m 0 t ⟨t0, t1, by omega, t3⟩ (by omega)
+    · simp only [removeKind, removeTone, removeWith, e4, e5, and_65528 hc]
+      exact key _ i m r 0 ⟨t0, t1, t2, by omega⟩ (by omega)
+
+/-- `pop` keeps the invariant -/
+theorem pop_valid {c : Nat} (hc : c < 65536) (hv : validCode c = true) :
+    (pop c).2 < 65536 ∧ validCode (pop c).2 = true := by
+  unfold pop
+  split
+  · exact removeKind_valid _ hc hv
+  · exact ⟨hc, hv⟩
+
 /-- list plumbing for `C13.recompose` -/
 theorem filterMap_id4 {α : Type} (a b c d : Option α) :
     [a, b, c, d].filterMap id = a.toList ++ b.toList ++ c.toList ++ d.toList := by
